@@ -333,6 +333,38 @@ void build_evil() {
     xml("member without attributes", "<relation id=\"1\"><member/></relation>");
     xml("tag without attributes", "<node id=\"1\"><tag/></node>");
     xml("object without id", "<node lat=\"1\" lon=\"1\"/><way/><relation/><changeset/>");
+    // Every order of child elements under every parent: the order of the children is what opens
+    // and closes the parser's sub-builders (tag list, node refs, members, discussion), so a
+    // builder left open or closed twice shows only for particular orders
+    // (<discussion>, <tag>, <discussion> ...). All sequences of up to 3 children out of 6 kinds
+    // under each of the 4 parents, and of exactly 4 out of 4 kinds under <changeset>.
+    {
+        const char* const kid[] = {"<tag k=\"a\" v=\"b\"/>", "<nd ref=\"5\"/>", "<member type=\"way\" ref=\"7\" role=\"outer\"/>",
+                                   "<discussion><comment uid=\"1\" user=\"u\" date=\"2020-01-01T00:00:00Z\"><text>first text</text></comment><comment uid=\"2\" user=\"someone else\" date=\"2020-01-02T00:00:00Z\"><text>second</text></comment></discussion>",
+                                   "<discussion/>", "<comment uid=\"3\" user=\"w\" date=\"2020-01-03T00:00:00Z\"><text>outside</text></comment>"};
+        const char* const kname[] = {"tag", "nd", "member", "discussion", "empty-discussion", "comment"};
+        const char* const parent[] = {"node", "way", "relation", "changeset"};
+        auto emit_seq = [&](int pi, const std::vector<int>& seq) {
+            std::string body = std::string("<") + parent[pi] + " id=\"1\" version=\"1\" lat=\"1\" lon=\"2\" user=\"u\" uid=\"1\">", name;
+            for (int k : seq) { body += kid[k]; name += std::string(name.empty() ? "" : ",") + kname[k]; }
+            body += std::string("</") + parent[pi] + ">";
+            // a second object behind it: what a builder left open does to the next object
+            body += "<node id=\"2\" lat=\"3\" lon=\"4\"><tag k=\"x\" v=\"y\"/></node>";
+            xml(std::string("child order: ") + parent[pi] + " with " + name, body);
+        };
+        for (int pi = 0; pi < 4; ++pi)
+            for (int len = 1; len <= 3; ++len) {
+                std::vector<int> seq(static_cast<size_t>(len), 0);
+                while (true) {
+                    emit_seq(pi, seq);
+                    int pos = len - 1;
+                    while (pos >= 0 && ++seq[static_cast<size_t>(pos)] == 6) { seq[static_cast<size_t>(pos)] = 0; --pos; }
+                    if (pos < 0) break;
+                }
+            }
+        const int four[] = {0, 3, 4, 5};
+        for (int code = 0; code < 256; ++code) emit_seq(3, {four[code & 3], four[(code >> 2) & 3], four[(code >> 4) & 3], four[(code >> 6) & 3]});
+    }
     for (size_t len : lens) {
         const std::string s(len, 'u');
         xml(vh::fmt("node user of %zu bytes", len), "<node id=\"1\" version=\"1\" user=\"" + s + "\" uid=\"1\" lat=\"1\" lon=\"1\"><tag k=\"k\" v=\"v\"/></node>");
